@@ -60,3 +60,37 @@ func c01Attach(t *rapid.T, h *history) {
 		prevParts = sim.BaseParts(&h.G.V.Exp)
 	}
 }
+
+// TestC01CandidateLimit runs the conservation ledger on worlds with 87..100 candidates (half of them
+// with candidate ids that differ by multiples of 256), short stake periods and crafted declarations
+// that push the count over 100: whatever the removal of a candidate deletes from the state tree, the
+// coins of everybody else must still be there.
+func TestC01CandidateLimit(t *testing.T) {
+	rapid.Check(t, func(t *rapid.T) {
+		wo := sim.DefaultOpts()
+		wo.MinExtraCands, wo.MaxExtraCands = 86, 95
+		wo.Frozen, wo.Orders, wo.Votes = false, false, false
+		wo.MinStakePd, wo.MaxStakePd = 2, 6
+		wo.SpreadCandidateIDs = rapid.Bool().Draw(t, "spreadIDs")
+		prof := stakingProfile()
+		prof["declare"], prof["candOn"], prof["candOff"] = 10, 6, 6
+		h := newHistory(t, wo, prof, sim.BlockOpts{MaxTxs: 5, Absences: true})
+		c01Attach(t, h)
+		declared := 0
+		h.R.H.AfterBegin = func(sim.BlockReq) {
+			if !craftDeclarations(t, h, &declared) {
+				violation(t, "panic", h.R, "%s", h.R.PanicReport())
+			}
+		}
+		before := len(h.G.V.Exp.DeletedCandidates)
+		nb := rapid.IntRange(3, scale(12, 24)).Draw(t, "nBlocks")
+		for i := 0; i < nb && !h.R.Halted; i++ {
+			if !h.R.Block(t) {
+				violation(t, "panic", h.R, "%s", h.R.PanicReport())
+			}
+		}
+		removed := len(h.G.V.Exp.DeletedCandidates) - before
+		sim.S.LabelN("C01/candidate-limit/removed", removed)
+		sim.S.Case("TestC01CandidateLimit", removed > 0, sim.HashStrings(h.R.Steps), func() interface{} { return sim.HistorySample(h.R.Steps, 25) })
+	})
+}
